@@ -265,6 +265,8 @@ degsumT = z3.Function('degsumT', A2R, A1I, INT, INT, REAL)       # degsumT(W, ci
 frow = z3.Function('frow', INT, INT, INT)        # frow(i, ncols), fcol(i, ncols): cell denoted by the flat (row-major) position i
 fcol = z3.Function('fcol', INT, INT, INT)
 fvalid = z3.Function('fvalid', INT, INT, INT, BOOL)  # fvalid(i, nrows, ncols): i is a valid flat position (0 <= i < nrows*ncols)
+mdot = z3.Function('mdot', A2R, A2R, A2R)               # the matrix product, as a value (uninterpreted: only congruence and the mpw equations are used)
+mpw = z3.Function('mpw', A2R, INT, A2R)                  # mpw(G, d) = G^d:  mpw(G, 1) = G,  mpw(G, d+1) = mdot(mpw(G, d), G)
 pathsum = z3.Function('pathsum', A2R, A1I, INT, REAL)   # pathsum(M, p, k) = sum_{t < k-1} M[p[t]][p[t+1]]  (k nodes, k-1 steps)
 agg = z3.Function('agg', A2R, A1I, INT, INT, INT, REAL)          # agg(W, ci, a, b, n) = sum_{x,y<n, ci[x]=a+1, ci[y]=b+1} W[x][y]
 tsum = z3.Function('tsum', A2R, INT, REAL)                       # sum of all entries
@@ -2433,6 +2435,25 @@ def _sb_lemma_pathsum_append(eng, st, node):
     return z3.Implies(k >= 1, pathsum(M, z3.Store(p, k, v), k + 1) == pathsum(M, p, k) + z3.Select(z3.Select(M, z3.Select(p, k - 1)), v))
 
 
+def _sb_mpw(eng, st, node):
+    """mpw(G, d): the d-th power of the matrix G (entry = number of walks of d connections for a 0/1 matrix)."""
+    G = _term2(eng, st, eng.ev(node.args[0], st))
+    return Opaque('snapshot', obj=Obj(2, mpw(G, to_z3(eng.ev(node.args[1], st), INT)), (st.ghost.get('n0'), st.ghost.get('n0')), REAL))
+
+
+def _sb_mateq(eng, st, node):
+    """mateq(A, B): A and B are the same matrix value (extensional equality of the array terms)."""
+    return _term2(eng, st, eng.ev(node.args[0], st)) == _term2(eng, st, eng.ev(node.args[1], st))
+
+
+def _sb_lemma_mpw(eng, st, node):
+    """DEFINITION (Lean: mpw_one, mpw_succ, mpw_succ_left -- Mathlib pow_one, pow_succ, pow_succ' for square matrices): mpw(G, 1) == G and
+    mpw(G, d + 1) == mdot(mpw(G, d), G) == mdot(G, mpw(G, d)) for the given d >= 1.  lemma_mpw(G, d)."""
+    G = _term2(eng, st, eng.ev(node.args[0], st))
+    d = to_z3(eng.ev(node.args[1], st), INT)
+    return z3.And(mpw(G, z3.IntVal(1)) == G, z3.Implies(d >= 1, z3.And(mpw(G, d + 1) == mdot(mpw(G, d), G), mpw(G, d + 1) == mdot(G, mpw(G, d)))))
+
+
 def _sb_lemma_agg_symm(eng, st, node):
     """LEMMA (Lean: agg_symm): the aggregate of a symmetric matrix is symmetric.  lemma_agg_symm(W, c, n)."""
     W = _term2(eng, st, eng.ev(node.args[0], st))
@@ -2767,7 +2788,7 @@ SPEC_BUILTINS = {
     'dot2': _sb_dot2, 'isperm': _sb_isperm, 'same_object': _sb_same_object, 'unchanged': _sb_unchanged,
     'snapshot': _sb_snapshot, 'argref': _sb_argref, 'lam1': _sb_lam1, 'KCf': _sb_KCf, 'KNf': _sb_KNf, 'result_is_empty': _sb_result_is_empty, 'hopsint': _sb_hopsint, 'lam2': _sb_lam2, 'unique_witness': _sb_unique_witness, 'member': _sb_member, 'dset': _sb_dset(dset), 'rset': _sb_dset(rset), 'wset': _sb_dset(wset), 'cntb': _sb_cntb,
     'modsum': _mk_mod(modsum, 3), 'modsumT': _mk_mod(modsumT, 3), 'degsum': _mk_mod(degsum, 2), 'degsumT': _mk_mod(degsumT, 2), 'agg': _mk_mod(agg, 3),
-    'Qmod': _sb_Qmod, 'walk': _sb_walk, 'isint': (lambda eng, st, node: z3.IsInt(to_z3(eng.ev(node.args[0], st), REAL))), 'sdist': _sb_sdist, 'lemma_walks': _sb_lemma_walks, 'Qrawg': _sb_Qrawg, 'umul': _sb_umul, 'lemma_umul_linear': _sb_lemma_umul_linear, 'QrawB': _mk_mod(QrawB, 1), 'tsum': _mk_specfn(tsum, 1), 'csum': _mk_specfn(csum, 2), 'lemma_modularity': _sb_lemma_modularity, 'lemma_knm_sums': _sb_lemma_knm_sums, 'lemma_relabel': _sb_lemma_relabel, 'lemma_relabel_g': _sb_lemma_relabel_g, 'lemma_agg_compose': _sb_lemma_agg_compose, 'pathsum': _sb_pathsum, 'lemma_pathsum': _sb_lemma_pathsum, 'lemma_pathsum_append': _sb_lemma_pathsum_append, 'lemma_ext_B': _sb_lemma_ext_B, 'lemma_Q_from_kernel': _sb_lemma_Q_from_kernel, 'lemma_QrawB_def': _sb_lemma_QrawB_def, 'lemma_trace_agg': _sb_lemma_trace_agg, 'lemma_relabel_B': _sb_lemma_relabel_B, 'lemma_agg_compose_B': _sb_lemma_agg_compose_B, 'lemma_Qrawg_def': _sb_lemma_Qrawg_def, 'lemma_agg_compose_g': _sb_lemma_agg_compose_g, 'lemma_qg_from_aggregate': _sb_lemma_qg_from_aggregate, 'lemma_flat_count': _sb_lemma_flat_count, 'unique_count': (lambda eng, st, node: st.ghost['unique_count_last']), 'rounds_to': _sb_rounds_to, 'where_index': _sb_where_index, 'argsort_inverse': _sb_argsort_inverse, 'exists': _sb_exists, 'lemma_tsum_add': _sb_lemma_tsum_add, 'lemma_tsum_int': _sb_lemma_tsum_int, 'lemma_full_offdiag': _sb_lemma_full_offdiag, 'flat_store_rows': (lambda eng, st, node: st.ghost['_flat_store'][0]), 'flat_store_cols': (lambda eng, st, node: st.ghost['_flat_store'][1]), 'flat_store_len': (lambda eng, st, node: st.ghost['_flat_store'][2]), 'lemma_tsum_plus_transpose': _sb_lemma_tsum_plus_transpose, 'lemma_image_count': _sb_lemma_image_count,
+    'Qmod': _sb_Qmod, 'walk': _sb_walk, 'isint': (lambda eng, st, node: z3.IsInt(to_z3(eng.ev(node.args[0], st), REAL))), 'sdist': _sb_sdist, 'lemma_walks': _sb_lemma_walks, 'Qrawg': _sb_Qrawg, 'umul': _sb_umul, 'lemma_umul_linear': _sb_lemma_umul_linear, 'QrawB': _mk_mod(QrawB, 1), 'tsum': _mk_specfn(tsum, 1), 'csum': _mk_specfn(csum, 2), 'lemma_modularity': _sb_lemma_modularity, 'lemma_knm_sums': _sb_lemma_knm_sums, 'lemma_relabel': _sb_lemma_relabel, 'lemma_relabel_g': _sb_lemma_relabel_g, 'lemma_agg_compose': _sb_lemma_agg_compose, 'pathsum': _sb_pathsum, 'lemma_pathsum': _sb_lemma_pathsum, 'mpw': _sb_mpw, 'mateq': _sb_mateq, 'lemma_mpw': _sb_lemma_mpw, 'lemma_pathsum_append': _sb_lemma_pathsum_append, 'lemma_ext_B': _sb_lemma_ext_B, 'lemma_Q_from_kernel': _sb_lemma_Q_from_kernel, 'lemma_QrawB_def': _sb_lemma_QrawB_def, 'lemma_trace_agg': _sb_lemma_trace_agg, 'lemma_relabel_B': _sb_lemma_relabel_B, 'lemma_agg_compose_B': _sb_lemma_agg_compose_B, 'lemma_Qrawg_def': _sb_lemma_Qrawg_def, 'lemma_agg_compose_g': _sb_lemma_agg_compose_g, 'lemma_qg_from_aggregate': _sb_lemma_qg_from_aggregate, 'lemma_flat_count': _sb_lemma_flat_count, 'unique_count': (lambda eng, st, node: st.ghost['unique_count_last']), 'rounds_to': _sb_rounds_to, 'where_index': _sb_where_index, 'argsort_inverse': _sb_argsort_inverse, 'exists': _sb_exists, 'lemma_tsum_add': _sb_lemma_tsum_add, 'lemma_tsum_int': _sb_lemma_tsum_int, 'lemma_full_offdiag': _sb_lemma_full_offdiag, 'flat_store_rows': (lambda eng, st, node: st.ghost['_flat_store'][0]), 'flat_store_cols': (lambda eng, st, node: st.ghost['_flat_store'][1]), 'flat_store_len': (lambda eng, st, node: st.ghost['_flat_store'][2]), 'lemma_tsum_plus_transpose': _sb_lemma_tsum_plus_transpose, 'lemma_image_count': _sb_lemma_image_count,
     'frow': (lambda eng, st, node: frow(to_z3(eng.ev(node.args[0], st), INT), to_z3(eng.ev(node.args[1], st), INT))), 'fcol': (lambda eng, st, node: fcol(to_z3(eng.ev(node.args[0], st), INT), to_z3(eng.ev(node.args[1], st), INT))), 'lemma_agg_symm': _sb_lemma_agg_symm, 'lemma_agg_identity': _sb_lemma_agg_identity, 'lemma_q_from_aggregate': _sb_lemma_q_from_aggregate,
     'lemma_masked_degree': _sb_lemma_masked_degree, 'lemma_degree_monotone': _sb_lemma_degree_monotone, 'result': _sb_result, 'raised': _sb_raised, 'shape_is': _sb_shape_is,
 }
